@@ -480,7 +480,16 @@ def replay_cases(ctx, cases, chunkings, cap):
     total = len(pairs)
     sampled = total > cap
     if sampled:
-        pairs = ctx.rng.sample(pairs, cap)
+        # stratified by operation, so that the operations with few cases are not crowded out by the ones with many
+        byop = {}
+        for p in pairs:
+            byop.setdefault(cases[p[0]]["c"]["op"], []).append(p)
+        quota, pairs, rest = cap // len(byop), [], []
+        for op in sorted(byop):
+            ctx.rng.shuffle(byop[op])
+            pairs += byop[op][:quota]
+            rest += byop[op][quota:]
+        pairs += ctx.rng.sample(rest, min(len(rest), cap - len(pairs)))
         pairs.sort(key=lambda p: p[0])
     by = {}
     for ci, ch in pairs:
@@ -639,17 +648,13 @@ def validate(ctx, recs, label, report=True):
 
 
 # --------------------------------------------------------------------------- run
-HEAVY = ["histogram", "compress"]
-
-
 def run(ctx):
     from ..sidebyside import in_parallel
-    fills = make_fills(ctx.rng, ctx.pick(3, 4), ctx.pick(40, 400), ctx.pick(14, 80), ctx.pick(24, 150))
+    fills = make_fills(ctx.rng, ctx.pick(3, 4), ctx.pick(30, 250), ctx.pick(12, 60), ctx.pick(18, 100))
     coshapes = ctx.pick("{<<4>>, <<6>>, <<2, 3>>}", "{<<1>>, <<4>>, <<5>>, <<6>>, <<2, 3>>, <<3, 2>>, <<4, 4>>}")
-    light = [o for o in OPS if o not in HEAVY]
-    jobs = [enumerate_cases(ctx, light[:5], fills, coshapes, "unique..searchsorted"),
-            enumerate_cases(ctx, light[5:], fills, coshapes, "isin..coarsen"),
-            enumerate_cases(ctx, HEAVY, fills, coshapes, "histogram+compress")]
+    groups = [["unique", "bincount", "histogram2d"], ["digitize", "searchsorted"], ["isin", "nonzero", "count_nonzero"],
+              ["ravel_multi_index", "unravel_index", "coarsen", "compress"], ["histogram"]]
+    jobs = [enumerate_cases(ctx, g, fills, coshapes, "+".join(g)) for g in groups]
     parts = in_parallel([functools.partial(read_cases, ctx, j) for j in jobs])
     cases = [c for p in parts for c in p]
     for c, bad in zip(cases, pmap(_guard, cases, chunk=64)):
@@ -657,11 +662,11 @@ def run(ctx):
             raise MachineryError("TLA+ reference disagrees with NumPy on %r: numpy=%r spec=%r" % (c["c"], bad, c["e"]))
     chunkings = {tuple(c["c"]["shape"]): c["e"]["all"] for c in cases if c["c"]["op"] == "chunkings"}
     cases = [c for c in cases if c["c"]["op"] != "chunkings"]
-    items, total, sampled = replay_cases(ctx, cases, chunkings, ctx.pick(10000, 90000))
+    items, total, sampled = replay_cases(ctx, cases, chunkings, ctx.pick(9000, 60000))
     for it in items[:3]:
         ctx.sample({"case": it[0], "expected": it[1], "run": it[2][0]})
     recs = []
-    for r in pmap(_record, random_runs(ctx, ctx.pick(1200, 12000)), chunk=32):
+    for r in pmap(_record, random_runs(ctx, ctx.pick(1000, 8000)), chunk=32):
         if "skip" in r:
             ctx.skip(r["skip"])
             continue
